@@ -540,7 +540,7 @@ fn merchant_config(c: &mut Ctx) {
 }
 
 pub fn run(c: &mut Ctx) {
-    c.note("rule", json!("for KeyPair<N> and PedersenParameters<G,N> (N in 1,2,3,5 quick; +8,13 thorough), RangeConstraintParameters and merchant::Config: dry run to log the draws, then an all-zero window over every single draw and every run of 2-3 consecutive draws (quick: capped sample), plus uniformly random streams; outputs checked through their wire form. Distinct = distinct (generator, window start, width) whose injection was consumed."));
+    c.note("rule", json!("for KeyPair<N> and PedersenParameters<G,N> (N in 1,2,3,5 quick; +8,13 thorough), RangeConstraintParameters and merchant::Config: dry run to log the draws, then an all-zero window over every single draw and every run of 2-3 consecutive draws (quick: capped sample), plus uniformly random streams; outputs checked through their wire form. Distinct = distinct (generator, window start, width) whose injection was consumed. Added later: samples q, 2q, 256q (reduce to zero), and algebraically related samples (x = -sum y_i m_i; range key x = -d*y) that make a legitimate signature with sigma2 = identity."));
     keygen_n::<1>(c);
     keygen_n::<2>(c);
     keygen_n::<3>(c);
